@@ -1,5 +1,6 @@
 import HC.Driver
 import HC.Model.Core
+import HC.Model.Proof
 /-! Stateful part of the line-protocol driver: cores on model disks. -/
 namespace HC.Driver
 open HC HC.Codec HC.Oplog
@@ -228,6 +229,103 @@ def coreLine (w : World) (ws : List String) : Option (World × String) :=
      | _, _ => some (w, "bad-op"))
   | ["crashgo", name, k, t] => (match k.toNat?, t.toNat? with
      | some k, some t => some (crashLine w name k t true)
+     | _, _ => some (w, "bad-op"))
+  | _ => none
+
+end HC.Driver
+
+namespace HC.Driver
+open HC HC.Codec
+
+/-! ### replication -/
+
+def proofTxt (p : Proof) : String :=
+  let b := match p.block with | some b => s!"{b.index}:{showBytes b.value}:{nodesTxt b.nodes}" | none => "-"
+  let h := match p.hash with | some h => s!"{h.index}:{nodesTxt h.nodes}" | none => "-"
+  let s := match p.seek with | some s => s!"{s.bytes}:{nodesTxt s.nodes}" | none => "-"
+  let u := match p.upgrade with
+    | some u => s!"{u.start}:{u.length}:{nodesTxt u.nodes}:{nodesTxt u.additionalNodes}:{hexOrDash u.signature}"
+    | none => "-"
+  s!"fork={p.fork} block={b} hash={h} seek={s} up={u}"
+
+def parsePair (s : String) : Option (Option (Nat × Nat)) :=
+  if s == "-" then some none else
+  match s.splitOn ":" with
+  | [a, b] => do let x ← a.toNat?; let y ← b.toNat?; pure (some (x, y))
+  | _ => none
+
+def stripPrefix? (s pre : String) : Option String :=
+  if s.startsWith pre then some (s.drop pre.length).toString else none
+
+/-- full textual form of a proof: `fork=F block=I/VALUE/NODES hash=I/NODES seek=B/NODES up=S/L/NODES/ADD/SIG` -/
+def parseProof (ws : List String) : Option Proof :=
+  match ws with
+  | [f, b, h, s, u] => do
+    let fork ← (← stripPrefix? f "fork=").toNat?
+    let bs ← stripPrefix? b "block="
+    let block ← if bs == "-" then some none else
+      match bs.splitOn "/" with
+      | [i, v, ns] => do pure (some (⟨← i.toNat?, ← unhex v, ← parseNodes ns⟩ : DataBlock))
+      | _ => none
+    let hs ← stripPrefix? h "hash="
+    let hash ← if hs == "-" then some none else
+      match hs.splitOn "/" with
+      | [i, ns] => do pure (some (⟨← i.toNat?, ← parseNodes ns⟩ : DataHash))
+      | _ => none
+    let ss ← stripPrefix? s "seek="
+    let seek ← if ss == "-" then some none else
+      match ss.splitOn "/" with
+      | [i, ns] => do pure (some (⟨← i.toNat?, ← parseNodes ns⟩ : DataSeek))
+      | _ => none
+    let us ← stripPrefix? u "up="
+    let up ← if us == "-" then some none else
+      match us.splitOn "/" with
+      | [a, l, ns, ad, sg] => do pure (some (⟨← a.toNat?, ← l.toNat?, ← parseNodes ns, ← parseNodes ad, ← unhex sg⟩ : DataUpgrade))
+      | _ => none
+    pure ⟨fork, block, hash, seek, up⟩
+  | _ => none
+
+def replLine (w : World) (ws : List String) : Option (World × String) :=
+  match ws with
+  | ["missing", name, i] =>
+    (match i.toNat?, w.get? name with
+     | some i, some h => (match h.core with
+       | some c => some (w, s!"ok {c.tree.missingNodes h.disk.tree (2 * i)}")
+       | none => some (w, "nocore"))
+     | _, _ => some (w, "nocore"))
+  | ["missingt", name, i] =>
+    (match i.toNat?, w.get? name with
+     | some i, some h => (match h.core with
+       | some c => some (w, s!"ok {c.tree.missingNodes h.disk.tree i}")
+       | none => some (w, "nocore"))
+     | _, _ => some (w, "nocore"))
+  | ["prove", name, b, hs, sk, up] =>
+    (match parsePair b, parsePair hs, parsePair up, w.get? name with
+     | some b, some hs, some up, some h =>
+       (match h.core with
+        | none => some (w, "nocore")
+        | some c =>
+          let seek : Option (Option RequestSeek) := if sk == "-" then some none else sk.toNat?.map (fun x => some ⟨x⟩)
+          match seek with
+          | none => some (w, "bad-op")
+          | some seek =>
+            let st := c.createProof h.disk (b.map fun (i, n) => ⟨i, n⟩) (hs.map fun (i, n) => ⟨i, n⟩) seek (up.map fun (s, l) => ⟨s, l⟩)
+            let out := match st.result with
+              | .ok (some p) => s!"ok {proofTxt p}"
+              | .ok none => "ok none"
+              | .error e => failTxt e
+            some (w, s!"{out}{evsTxt h.subs st.events}"))
+     | _, _, _, _ => some (w, "bad-op"))
+  | "applyp" :: name :: rest =>
+    (match parseProof rest, w.get? name with
+     | some p, some h =>
+       (match h.core with
+        | none => some (w, "nocore")
+        | some c =>
+          let st := c.verifyAndApply C h.disk p
+          let h' := commitStep h c st
+          let out := match st.result with | .ok b => s!"ok {b}" | .error e => failTxt e
+          some (w.set name h', s!"{out} j={jTxt st.journal}{evsTxt h.subs (if st.result.isOk then st.events else [])}"))
      | _, _ => some (w, "bad-op"))
   | _ => none
 
